@@ -116,6 +116,26 @@ def const_target_job(lo, hi):
     return res
 
 
+DEGENERATE = ['', '\n', '# only a comment\n', 'K = 5\nM = K * 2\n', 'bytes 1 2 3\n', 'string hello\n', 'start:\n', 'start:\nend_:\n', 'dw 7\nalign 8\n', 'align 4\n',
+              'K = 1\nlab:\ndb K\n', 'shorts 1 2\nL:\npack <I, L\n', '   \n\t\n', 'R = x5\n', 'include_me:\nstring x\nalign 2\n']
+
+
+def degenerate_job():
+    """Programs without a single instruction (empty, comments, definitions, data, labels only): -c has nothing to do and must change nothing."""
+    a = env.load_asm()
+    res = env.Result()
+    for src in DEGENERATE:
+        res.evaluations += 1
+        u = progcheck.assemble(a, src, False)
+        c = progcheck.assemble(a, src, True)
+        if u[0] == 'ok' and (c[0] != 'ok' or c[1] != u[1] or c[2] != u[2]):
+            res.fail('only_with_c:no_instructions', 'the instruction-free program %r assembles to %s without -c; with -c: %s' % (
+                src, u[1].hex(), c[1].hex() if c[0] == 'ok' else '%s: %s' % (type(c[1]).__name__, str(c[1])[-120:])), {'kind': 'text', 'source': src})
+        elif u[0] == 'ok':
+            res.nontrivial_count += 1
+    return res
+
+
 def run(tier):
     chk = env.Check(PROP, tier)
     chk.rule = ('Hypothesis IR programs from two profiles (RVC operand-set edges with constants/aliases as operands and shift '
@@ -127,6 +147,7 @@ def run(tier):
     for i, prof in enumerate(PROFILES):
         progcheck.run_sharded(chk, PROP + ('' if i == 0 else '#%d' % i), prof, N[tier] // len(PROFILES), 'judge', __name__)
     chk.merge(env.run_shards(const_target_job, [(i, i + 1) for i in range(len(PRES))]))
+    chk.merge(env.run_shards(degenerate_job, [()]))
     chk.rule += ('; plus call / tail / j / jal / beqz / bne to a constant address round the +-1 MiB, +-2 KiB, +-256 B edges and round the instruction itself, behind 13 kinds of shrinking code (up to 300 li, aligns up to 4096): '
                  'call / tail must be accepted in both modes (the far form reaches everything)')
     _prog.check_vacuity(chk)
